@@ -93,14 +93,13 @@ Definition sorted_entries (m : amap tlinfo) : amap tlinfo :=
 
 (* ------------------------------------------------------------------ remap tables, row by row *)
 
-(* one line of a remap table = one call of Mapping.add with overwrite *)
-Record row := mkRow {
-  r_inP : str; r_inV : str; r_outP : option str; r_outV : option str; r_fl : str }.
-
-Definition add_row (m : mapping) (r : row) : mapping :=
-  m_add m (r_inP r) (r_inV r) (r_outP r) (r_outV r) (r_fl r) true.
+(* one line of a remap table = one call of Mapping.add with overwrite (Model/Manifest.v: row) *)
+Definition add_row (m : mapping) (r : row) : mapping := add_row_ow true m r.
 
 Definition m_of_rows (rows : list row) : mapping := fold_left add_row rows empty_mapping.
+
+(* the tree before the repairs *)
+Definition m_of_rows_pinned (rows : list row) : mapping := fold_left add_row_pinned rows empty_mapping.
 
 Inductive verdict := Replace (q w : str) | Delete.
 
@@ -149,51 +148,61 @@ Definition spec_remap_dep (rows : list row) (fl : str) (d : dep) : list dep :=
 Definition spec_remap (rows : list row) (fl : str) (ds : list dep) : list dep :=
   flat_map (spec_remap_dep rows fl) ds.
 
-(* --- the two places where Mapping does not do what the rows say (open findings) --- *)
+(* the rows of a Mapping, as lines of a remap table *)
+Definition row_of_mrow (r : mrow) : row :=
+  match r with (f, p, v, q, w) => mkRow p v (Some q) w f end.
 
-Definition group_keys (rows : list row) (f p : str) : list str :=
-  map r_inV (filter (in_group f p) rows).
+Definition rows_of (m : mapping) : list row := map row_of_mrow (m_rows m).
 
-Definition key_deleted (rows : list row) (f p k : str) : bool :=
-  match last_row rows f p k with
-  | Some r => match verdict_of r with Delete => true | Replace _ _ => false end
-  | None => false
+(* two tables that answer every lookup alike (what python calls equal dictionaries, empty inner
+   dictionaries apart) *)
+Definition fm_get (fm : fmap) (f p k : str) : option mval :=
+  match alookup f fm with
+  | None => None
+  | Some pm => match alookup p pm with None => None | Some vm => alookup k vm end
   end.
 
-(* deletion is stored as an EMPTY dictionary for the product: it works only when every row
-   of the product (in that flavor) ends up deleted and one of them is the any row *)
-Definition group_ok (rows : list row) (f p : str) : bool :=
-  let ks := group_keys rows f p in
-  forallb (fun k => negb (key_deleted rows f p k)) ks ||
-  (forallb (key_deleted rows f p) ks && mem_str s_any ks).
+(* ------------------------------------------------------------------ remap files *)
 
-Definition same_verdict (x : option verdict) (p v : str) : bool :=
-  match x with
-  | Some (Replace q w) => str_eqb q p && str_eqb w v
-  | _ => false
+Definition no_char (c : ascii) (s : str) : bool := negb (mem_ascii c s).
+
+(* a field of a remap line: a word free of hash signs *)
+Definition wf_field (s : str) : bool := wf_word s && no_char c_hash s.
+
+(* an in-product: a field free of colons and equals signs that does not open a bracket *)
+Definition wf_inproduct (s : str) : bool :=
+  wf_field s && no_char c_colon s && no_char c_eq s &&
+  match s with c :: _ => negb (ascii_eqb c c_lbr) | [] => false end.
+
+(* a row as Mapping.__str__ prints it and the reader reads it back:
+   the in-version is not the capitalised Any (read as any); a replacement names an out-product free
+   of colons and an out-version that is none of the words the reader takes for -remove- and not the
+   noreinstall keyword; a removal row carries the in-product *)
+Definition wf_mrow (r : mrow) : bool :=
+  match r with
+  | (f, p, v, q, w) =>
+      wf_field f && wf_inproduct p && wf_field v && negb (str_eqb v k_cap_any) &&
+      match w with
+      | None => str_eqb q p
+      | Some w' =>
+          wf_field q && no_char c_colon q && wf_field w' &&
+          negb (str_eqb w' s_any) && negb (str_eqb w' k_low_none) && negb (str_eqb w' k_cap_none) &&
+          negb (is_noreinstall (Some w'))
+      end
   end.
 
-(* Mapping.apply falls back to the generic rows whenever the flavor rows RETURN the entry
-   unchanged, also when a flavor row named it (and mapped it to itself) *)
-Definition shadowed_identity (rows : list row) (fl p v : str) : bool :=
-  negb (str_eqb fl s_generic) && same_verdict (level_says rows fl p v) p v &&
-  match level_says rows s_generic p v with
-  | None => false
-  | Some x => negb (same_verdict (Some x) p v)
-  end.
-
-Definition entry_ok (rows : list row) (fl p v : str) : bool :=
-  group_ok rows fl p && group_ok rows s_generic p && negb (shadowed_identity rows fl p v).
+Definition wf_table (m : mapping) : bool := forallb wf_mrow (m_rows m).
 
 (* ------------------------------------------------------------------ inverse *)
 
-(* rows of a mapping that inverse can turn around: no wild card on either side, nothing that
-   add would treat as a keyword or as absent, no entry mapped to itself *)
+(* rows of a mapping that inverse can turn around: removal rows are skipped; a replacement row has
+   no wild card on either side and nothing that add would treat as a keyword or as absent *)
 Definition invertible_row (r : mrow) : bool :=
   match r with
-  | (f, p, v, q, w) =>
+  | (f, p, v, q, None) => true
+  | (f, p, v, q, Some w) =>
       nonempty p && nonempty v && negb (str_eqb v s_any) && negb (str_eqb w s_any) &&
-      negb (is_noreinstall (Some v)) && negb (str_eqb q p && str_eqb w v)
+      negb (is_noreinstall (Some v))
   end.
 
 Definition in_dom (m : mapping) (fl p v : str) : bool :=
@@ -206,7 +215,7 @@ Definition dom_list (m : mapping) (fl : str) : list (str * str) :=
 
 Definition pv_eqb (a b : str * str) : bool := str_eqb (fst a) (fst b) && str_eqb (snd a) (snd b).
 
-Definition res_eqb (a b : str * option str) : bool :=
+Definition res_eqb (a b : mval) : bool :=
   str_eqb (fst a) (fst b) &&
   match snd a, snd b with
   | Some x, Some y => str_eqb x y
@@ -214,11 +223,15 @@ Definition res_eqb (a b : str * option str) : bool :=
   | _, _ => false
   end.
 
-(* as seen from the running flavor, no two named entries are sent to the same target *)
+(* as seen from the running flavor, no two named entries that are kept are sent to the same target *)
 Definition one_to_one (m : mapping) (fl : str) : bool :=
   forallb (fun x1 => forallb (fun x2 =>
-    implb (res_eqb (m_apply m (fst x1) (snd x1) fl) (m_apply m (fst x2) (snd x2) fl)) (pv_eqb x1 x2))
-    (dom_list m fl)) (dom_list m fl).
+    match m_apply m (fst x1) (snd x1) fl with
+    | (_, None) => true
+    | r1 => implb (res_eqb r1 (m_apply m (fst x2) (snd x2) fl)) (pv_eqb x1 x2)
+    end) (dom_list m fl)) (dom_list m fl).
 
 (* the key (flavor, out-product, out-version) under which inverse files a row *)
-Definition row_target (r : mrow) : str * str * str := match r with (f, _, _, q, w) => (f, q, w) end.
+Definition row_target (r : mrow) : str * str * option str := match r with (f, _, _, q, w) => (f, q, w) end.
+
+Definition live_row (r : mrow) : bool := match r with (_, _, _, _, Some _) => true | _ => false end.
